@@ -195,6 +195,30 @@ fn switch_crossing(l: &Link, i: usize) -> Link {
     Link::new(data)
 }
 
+/// every single crossing change of a knot diagram (mostly non-alternating diagrams, the ones whose simplification closes dotted
+/// positive-genus components): reduced = unreduced and the mirror rule, over (Z, 2) and (F3[H], H)
+fn switched_case(s: &mut Sink, name: &str, l: &Link) {
+    if !is_plain_pd(l) { return }
+    type P3 = Poly<'H', FF<3>>;
+    for i in 0..l.crossing_num() {
+        let km = switch_crossing(l, i);
+        if !km.is_knot() { continue }
+        let desc = format!("{} [{} with crossing#{} switched]", link_txt(&km), name, i);
+        let (k1, k2, k3) = (km.clone(), km.clone(), km.mirror());
+        let got = guard_timeout(180, move || (ss_invariant::<i64>(&k1, &2, false), ss_invariant::<i64>(&k2, &2, true), ss_invariant::<i64>(&k3, &2, false),
+            ss_invariant::<P3>(&k1, &P3::variable(), false), ss_invariant::<P3>(&k2, &P3::variable(), true))).flatten();
+        match got {
+            Some((u, rd, m, u3, rd3)) => {
+                s.oracle(u == rd && u3 == rd3 && u == u3, "ss is the same for the reduced and unreduced theories (and for every admissible (R, c))", &desc, &format!("Z,2: {} vs {}; F3[H],H: {} vs {}", u, rd, u3, rd3));
+                s.oracle(m == -u, "ss changes sign under mirroring", &desc, &format!("{} vs mirror {}", u, m));
+            }
+            None => s.oracle(false, "ss_invariant terminates without panic on a knot diagram", &desc, "panic/timeout"),
+        }
+        s.count("switched-diagram");
+    }
+    s.eval_only(&format!("switched diagrams of {}", name), true);
+}
+
 fn knot_case(s: &mut Sink, r: &mut Rng, name: &str, l: &Link, full: bool) {
     let desc = format!("{} [{}]", link_txt(l), name);
     let Some(u) = ss_all(l, false) else { s.oracle(false, "ss_invariant terminates without panic on a knot diagram", &desc, "panic/timeout"); return };
@@ -310,6 +334,13 @@ fn main() {
         if !l.is_knot() { continue }
         guarded_case(&mut s, name, |s| knot_case(s, &mut r, name, l, true));
         s.eval_only(&format!("knot {}", name), true);
+    }
+    // all single crossing changes of 7- (thorough: 6- to 8-) crossing table knots
+    {
+        let mut ks: Vec<String> = table_names(if thorough { 8 } else { 7 }).into_iter().filter(|n| !n.starts_with('L') && (n.starts_with("7_") || (thorough && (n.starts_with("6_") || n.starts_with("8_"))))).collect();
+        r.shuffle(&mut ks);
+        if !thorough { ks.truncate(3); if !ks.iter().any(|x| x == "7_7") { ks.push("7_7".into()); } } else { ks.truncate(24); }
+        for n in ks { if let Some(l) = load(&n) { if l.is_knot() { guarded_case(&mut s, &n, |s| switched_case(s, &n, &l)); } } }
     }
     // construction of the canonical cycles without elimination, against the Lean construction model
     {
